@@ -18,6 +18,10 @@ namespace vf
     //   void check(Obj&, const std::vector<std::string>&hist, std::function<void(key,what)> fail);   all queries vs. model
     //   bool nontrivial(Obj&, const std::vector<std::string>&hist);
     //   std::string outcome(Obj&);                              observable outcome (for distinct_outcomes)
+    //   std::vector<std::string> variants(Obj&, const std::string &op);   further ops to try from the same parent, decided after
+    //                                                            applying op (environment answers the op actually consulted)
+    //   static constexpr bool kModelInCanon;                    canon() determines the model state as well
+    //   void checkTransition(Obj&, hist, fail);                 transition-level checks only (used on revisits when kModelInCanon)
     template <class S>
     struct HBFS
     {
@@ -75,20 +79,30 @@ namespace vf
                     auto o = build(hist);
                     ops = sys.enabled(*o);
                 }
-                for (auto &op : ops)
+                for (size_t opi = 0; opi < ops.size(); ++opi)
                 {
+                    const std::string op = ops[opi];
                     auto h2 = hist;
                     h2.push_back(op);
                     auto o = build(h2);
                     rep.transitions++;
                     rep.evaluations++;
+                    // an op that consulted an enumerated environment answer (e.g. a random pivot) spawns its variants
+                    for (auto &v : sys.variants(*o, op))
+                        ops.push_back(v);
                     std::string k = sys.canon(*o);
                     // every transition is checked (two histories reaching the same representation may differ in the model)
                     bool failed = false;
-                    sys.check(*o, h2, [&](const std::string &key, const std::string &w) {
+                    auto onFail = [&](const std::string &key, const std::string &w) {
                         failed = true;
                         rep.fail(key, w, replayJson(h2));
-                    });
+                    };
+                    // when the canonical dump determines the reference model too (S::kModelInCanon), a revisited state
+                    // needs only the transition-level checks (results returned by the op itself)
+                    if (S::kModelInCanon && seen.count(k))
+                        sys.checkTransition(*o, h2, onFail);
+                    else
+                        sys.check(*o, h2, onFail);
                     rep.outcomes.insert(hstr(sys.outcome(*o)));
                     if (sys.nontrivial(*o, h2))
                         rep.nontrivial.insert(hstr(k));
